@@ -313,7 +313,7 @@ pub fn ext_receiver_body(classes: &[Class], first: bool, lt: LT, last_final: boo
     let plen = any_len(ZR);
     let fid: u8 = kani::any();
     let total_len: u16 = kani::any();
-    kani::assume(total_len as usize > plen);
+    kani::assume(total_len as usize > plen + 2 + lt.len());
     let mut buf: [u8; NBR] = kani::any();
     let (n, data_off) = write_ext_packet(&mut buf, first, lt, &label, fid, total_len, &specs, m, ptype, is_final, &payload, plen);
     let len = any_len(NBR);
@@ -431,6 +431,81 @@ pub fn twin_rx_complete_bc_o2() {
     let r = d.decap(&buf[..n]);
     if r.is_ok() {
         assert!(false, "TWIN.reachable");
+    }
+    core::mem::forget(r);
+    core::mem::forget(d);
+}
+
+/// Lean first-fragment-with-extension receiver lemma for the quick tier: broadcast label,
+/// ONE optional 2-byte extension (symbolic id low byte and data), payload 0..=2 bytes,
+/// straight-line packet construction (no writer loops), arbitrary total length and tail.
+/// A well-formed such packet (total length > carried payload) is accepted, reports the
+/// extension, the protocol type and the on-wire length, and leaves the context with the
+/// payload at offset 0 and the extension list.
+#[kani::proof]
+#[kani::unwind(6)]
+#[kani::stub(dvb_gse_rust::gse_decap::read_gse_header, crate::dmodels::hdr_first_bc)]
+pub fn rx_first_bc_o2_lean() {
+    const NBL: usize = 16;
+    let mut buf: [u8; NBL] = kani::any();
+    let low: u8 = kani::any();
+    let d0: u8 = kani::any();
+    let d1: u8 = kani::any();
+    let ptype: u16 = kani::any();
+    kani::assume(ptype >= 0x600);
+    let plen = any_len(2);
+    let fid: u8 = kani::any();
+    let total_len: u16 = kani::any();
+    // sender-produced: total length = 2 + PDU length (broadcast label), PDU length > carried payload
+    kani::assume(total_len as usize > plen + 2);
+    // [hdr 2][fid 1][total 2][ext id 2][data 2][ptype 2][payload plen]
+    let gse_len = 1 + 2 + 2 + 2 + 2 + plen;
+    let w = spec_encode(Kind::First, LT::Broadcast, gse_len as u16);
+    buf[0] = (w >> 8) as u8;
+    buf[1] = w as u8;
+    buf[2] = fid;
+    buf[3] = (total_len >> 8) as u8;
+    buf[4] = total_len as u8;
+    buf[5] = 0x02;
+    buf[6] = low;
+    buf[7] = d0;
+    buf[8] = d1;
+    buf[9] = (ptype >> 8) as u8;
+    buf[10] = ptype as u8;
+    let n = gse_len + 2;
+    let len = any_len(NBL);
+    kani::assume(len >= n);
+    let (mut mem, _g) = build_ref_ghost::<1, ZR>(&RX_E);
+    mem.slot_hint = Some(0);
+    let mut d = Decapsulator::new(mem, ConstCrc(0), crate::extm::TestMgr);
+    d.verif_set_last_label(any_rx_label());
+    let r = d.decap(&buf[..len]);
+    match &r {
+        Ok((DecapStatus::FragmentedPkt(md), consumed)) => {
+            assert!(*consumed == n, "C13.consumes_on_wire_length");
+            assert!(md.protocol_type() == ptype, "C13.protocol_type");
+            assert!(md.extensions().len() == 1, "C13.same_number_of_extensions");
+            let e = &md.extensions()[0];
+            assert!(e.id() == 0x0200 | low as u16 && ext_data_byte(e, 0) == Some(d0) && ext_data_byte(e, 1) == Some(d1),
+                    "C13.same_ordered_extension_list");
+            match &d.memory.slots[0] {
+                Some((c, b)) => {
+                    assert!(c.pdu_len as usize == plen && c.total_len == total_len && c.frag_id == fid && c.protocol_type == ptype,
+                            "C13.first_fragment_context");
+                    assert!(c.extensions_header.len() == 1, "C13.context_keeps_extensions");
+                    if plen > 0 {
+                        assert!(b[0] == buf[11], "C13.pdu_bytes");
+                    }
+                    if plen > 1 {
+                        assert!(b[1] == buf[12], "C13.pdu_bytes");
+                    }
+                }
+                None => assert!(false, "C13.first_fragment_opens_a_context"),
+            }
+            kani::cover!(plen == 2 && (total_len as usize) == 5, "total_length_smaller_than_extension_area_plus_payload");
+            kani::cover!(plen == 0, "header_only");
+        }
+        _ => assert!(false, "C13.known_chain_is_accepted"),
     }
     core::mem::forget(r);
     core::mem::forget(d);
